@@ -3,5 +3,6 @@ CONSTANTS
   Prop = "ALL"
   DevStarCollision = FALSE
   DevMergeNoBigram = FALSE
+  DevDualClamp = FALSE
 POSTCONDITION Accepted
 CHECK_DEADLOCK FALSE
